@@ -533,11 +533,11 @@ def main():
     if chk.cov['model_mismatches']:
         chk.harness_error('a solver counterexample did not reproduce with concrete names')
     from . import extras7
-    for fn_ in ('proxy_postponement',):
+    for fn_ in ('proxy_postponement', 'references_per_assignment'):
         for pr in getattr(extras7, fn_)()[:2]:
             chk.violation(pr, {'extras7': fn_})
         chk.cov['traces_validated_against_impl'] += 1
-    chk.cov.setdefault('bounds', {})['concrete_supplements_round7'] = ['proxy_postponement']
+    chk.cov.setdefault('bounds', {})['concrete_supplements_round7'] = ['proxy_postponement', 'references_per_assignment']
     return chk.finish('one exploration per (model, expression, start object, number of parts); every feasible path of the '
                       'real RREL evaluation ends in one z3 validity query; non-trivial = paths that resolve to an object')
 
